@@ -73,7 +73,11 @@ func ValidateGenesis(data GenesisState) error {
 	// validate token
 	for _, token := range data.Tokens {
 		if err := token.Validate(); err != nil {
-			return err
+			// a token registered through MsgDeployERC20 for an asset that has no token record of its own (an IBC
+			// voucher) carries that asset's denom and the symbol governance chose: the rules of that message apply
+			if len(token.Contract) == 0 || validateERC20Token(token) != nil {
+				return err
+			}
 		}
 	}
 
@@ -84,4 +88,26 @@ func ValidateGenesis(data GenesisState) error {
 		}
 	}
 	return nil
+}
+
+// validateERC20Token validates a token record created by DeployERC20 for an asset without a token record
+func validateERC20Token(t Token) error {
+	if len(t.Owner) > 0 {
+		if _, err := sdk.AccAddressFromBech32(t.Owner); err != nil {
+			return err
+		}
+	}
+	if err := tokentypes.ValidateName(t.Name); err != nil {
+		return err
+	}
+	if err := ValidateERC20(t.Symbol); err != nil {
+		return err
+	}
+	if err := ValidateERC20(t.MinUnit); err != nil {
+		return err
+	}
+	if t.MaxSupply < t.InitialSupply {
+		return tokentypes.ErrInvalidMaxSupply
+	}
+	return tokentypes.ValidateScale(t.Scale)
 }
